@@ -1037,7 +1037,7 @@ func (r *RouteTrie) RemovePool(cidr ip.CIDR) {
 }
 
 func (r *RouteTrie) UpdateBlockRoute(cidr ip.CIDR, nodeName string) {
-	r.updateCIDR(cidr, func(ri *RouteInfo) {
+	changed := r.updateCIDR(cidr, func(ri *RouteInfo) {
 		block := Block{NodeName: nodeName}
 
 		if len(ri.Blocks) == 0 {
@@ -1046,13 +1046,23 @@ func (r *RouteTrie) UpdateBlockRoute(cidr ip.CIDR, nodeName string) {
 			ri.Blocks[0] = block
 		}
 	})
+	if !changed {
+		return
+	}
+	// Routes for the CIDRs inside the block take their node, type and "borrowed" flag
+	// from the block, so (as for pools) they need to be recalculated.
+	r.markChildrenDirty(cidr)
 }
 
 func (r *RouteTrie) RemoveBlockRoute(cidr ip.CIDR) {
-	r.updateCIDR(cidr, func(ri *RouteInfo) {
+	changed := r.updateCIDR(cidr, func(ri *RouteInfo) {
 		// The datastore constraints guarantee that we only see one Block for a CIDR.
 		ri.Blocks = nil
 	})
+	if !changed {
+		return
+	}
+	r.markChildrenDirty(cidr)
 }
 
 func (r *RouteTrie) AddHost(cidr ip.CIDR, nodeName string) {
